@@ -154,6 +154,21 @@ impl AgentRun {
                     let n = bytes.len();
                     bytes[n - 3] ^= 0x40; // inside the HMAC value
                 }
+                // an integrity attribute of an illegal size appended by hand (the parser does not look
+                // inside integrity attributes; validate_integrity refuses the size)
+                let bogus: Option<(u16, usize)> = match p[4] {
+                    "2" => Some((0x0008, 4)),
+                    "3" => Some((0x001C, 12)),
+                    "4" => Some((0x001C, 36)),
+                    _ => None,
+                };
+                if let (Some((ty, n)), 0) = (bogus, signed_len) {
+                    bytes.extend_from_slice(&ty.to_be_bytes());
+                    bytes.extend_from_slice(&(n as u16).to_be_bytes());
+                    bytes.extend(std::iter::repeat(0x5au8).take(n));
+                    let l = (bytes.len() - 20) as u16;
+                    bytes[2..4].copy_from_slice(&l.to_be_bytes());
+                }
                 let from = addr_of(p[5]);
                 let r: String = match Message::from_bytes(&bytes) {
                     Err(_) => "noparse".into(),
@@ -376,7 +391,7 @@ pub fn history(rng: &mut Rng, len: usize, tr: &str, timing: bool) -> String {
                         None => format!("1:{}", g.rng.below(4)),
                     },
                 };
-                let corrupt = if g.rng.chance(1, 6) { 1 } else { 0 };
+                let corrupt = if g.rng.chance(1, 6) { 1 } else if g.rng.chance(1, 8) { 2 + g.rng.below(3) } else { 0 };
                 let from = ADDRS[g.rng.below(4) as usize];
                 g.push(format!("H/{}/{:x}/{}/{}/{}", kind, TIDS[ti], sign, corrupt, from));
             }
@@ -469,6 +484,63 @@ pub fn gen(which: &str, rng: &mut Rng, count: usize, thorough: bool, out: &mut V
                     "ag tr={} local=4:7f000001:1000 ops=S/1/0/n/{}/0/-;F/1/60000/8/60000;P/0;P/60000000000;P/60000000000;P/180000000000;P/180000000000;P/420000000000;P/420000000000;P/900000000000;P/900000000000;P/1860000000000;P/1860000000000;P/3780000000000;P/3780000000000;P/7620000000000;P/7620000000000;P/7620000000001;P/15300000000000;P/15300000000000;P/15360000000000",
                     tr, ADDRS[0]
                 ));
+            }
+        }
+        "ag.exh" => {
+            // EXHAUSTIVE: every history of exactly `depth` calls over a 16-letter alphabet for two
+            // transaction ids (observations are compared after every call, so shorter histories are
+            // covered as prefixes); instants follow the agent's own answers
+            let depth: u32 = if thorough { 5 } else { 4 };
+            let letters = 16u64;
+            let total = letters.pow(depth);
+            let mut idx = _part;
+            while idx < total {
+                for tr in ["udp", "tcp"] {
+                    let mut g = Gen { rng, run: AgentRun::new(tr, "4:7f000001:1000", 0), ops: vec![], now: 0, last_wait: None, remote_key: None, sent_keys: vec![] };
+                    let mut code = idx;
+                    for _ in 0..depth {
+                        let l = code % letters;
+                        code /= letters;
+                        let (a, b) = (TIDS[0], TIDS[1]);
+                        let op = match l {
+                            0 => format!("S/{:x}/0/n/{}/{}/-", a, ADDRS[0], g.now),
+                            1 => format!("S/{:x}/0/1:0/{}/{}/0102030405", a, ADDRS[0], g.now),
+                            2 => format!("S/{:x}/0/n/{}/{}/-", b, ADDRS[1], g.now),
+                            3 => format!("P/{}", g.now),
+                            4 => {
+                                if let Some(w) = g.last_wait {
+                                    g.now = g.now.max(w);
+                                }
+                                format!("P/{}", g.now)
+                            }
+                            5 => {
+                                g.now += 40_000_000_000;
+                                format!("P/{}", g.now)
+                            }
+                            6 => format!("H/ok/{:x}/1:0/0/{}", a, ADDRS[0]),
+                            7 => format!("H/ok/{:x}/2:1/0/{}", a, ADDRS[0]),
+                            8 => format!("H/err/{:x}/n/0/{}", a, ADDRS[2]),
+                            9 => format!("H/ok/{:x}/n/0/{}", b, ADDRS[1]),
+                            10 => format!("H/req/{:x}/n/0/{}", a, ADDRS[1]),
+                            11 => format!("C/{:x}", a),
+                            12 => format!("R/{:x}", a),
+                            13 => "K/0".to_string(),
+                            14 => format!("H/ok/{:x}/n/3/{}", a, ADDRS[0]),
+                            _ => format!("F/{:x}/1000/1/2000", a),
+                        };
+                        g.push(op);
+                    }
+                    // two closing polls: at the wake-up, then far in the future
+                    if let Some(w) = g.last_wait {
+                        g.now = g.now.max(w);
+                    }
+                    let n1 = g.now;
+                    g.push(format!("P/{}", n1));
+                    let n2 = g.now + 100_000_000_000;
+                    g.push(format!("P/{}", n2));
+                    out.push(format!("ag tr={} local=4:7f000001:1000 ops={}", tr, g.ops.join(";")));
+                }
+                idx += _parts;
             }
         }
         "ag.pure" => {
